@@ -150,6 +150,27 @@ pub fn run(ctx: &Ctx) -> Report {
                         acc.sample(case.brief());
                     }
                     judge_guarded(judge, &case, &mut acc);
+                    if c == 0 {
+                        // the same message through the builder's other paths: into_owned() between the
+                        // attributes and the sealing, into_owned() / clone() at the end, and the builder
+                        // measured and serialised after every operation
+                        let nl = l.len();
+                        let base = &p.ops;
+                        let mut v1 = base.clone();
+                        v1.insert(nl, Op::IntoOwned);
+                        let mut v2 = base.clone();
+                        v2.push(Op::IntoOwned);
+                        v2.push(Op::Clone);
+                        let mut v3 = Vec::new();
+                        for o in base {
+                            v3.push(o.clone());
+                            v3.push(Op::Measure);
+                        }
+                        for ops in [v1, v2, v3] {
+                            let q = Prog { class: p.class, method: 1, tid: tid0, ops };
+                            judge_guarded(judge, &q.to_case("build"), &mut acc);
+                        }
+                    }
                 }
             }
             acc
@@ -184,6 +205,9 @@ pub fn run(ctx: &Ctx) -> Report {
             for s in seal_set {
                 let mut ops = vec![o.clone()];
                 ops.extend(s);
+                let mut owned = ops.clone();
+                owned.push(Op::IntoOwned);
+                cases2.push(Prog { class: 0, method: 1, tid: tid0, ops: owned }.to_case("build"));
                 cases2.push(Prog { class: 0, method: 1, tid: tid0, ops }.to_case("build"));
             }
         }
@@ -261,7 +285,7 @@ pub fn run(ctx: &Ctx) -> Report {
     Report {
         acc,
         exhaustive: true,
-        rule: "all lists of pairwise distinct attributes up to the depth over a 42-entry alphabet (16 non-sealing built-in types with 2-3 values each + raw types) x 8 sealing combinations x {short-term, long-term}; 100 header variants x 3 lists x 8 sealings; all 4096 methods x 4 classes; one-attribute messages of every length 0..=763 (USERNAME 0..=513); every encode-side value of every type; every 16-bit type code as a raw attribute (alone; behind SOFTWARE and fully sealed); values that look like FINGERPRINT / MI / MI-SHA256 attribute headers or a STUN header, first / middle / last, under every sealing; distinct_nontrivial = programs the builder ran to completion".into(),
+        rule: "all lists of pairwise distinct attributes up to the depth over a 42-entry alphabet (16 non-sealing built-in types with 2-3 values each + raw types) x 8 sealing combinations x {short-term, long-term}, each short-term program also with into_owned() before the sealing, into_owned()+clone() at the end, and the builder measured / serialised after every operation; 100 header variants x 3 lists x 8 sealings; all 4096 methods x 4 classes; one-attribute messages of every length 0..=763 (USERNAME 0..=513); every encode-side value of every type; every 16-bit type code as a raw attribute (alone; behind SOFTWARE and fully sealed); values that look like FINGERPRINT / MI / MI-SHA256 attribute headers or a STUN header, first / middle / last, under every sealing; distinct_nontrivial = programs the builder ran to completion".into(),
         bounds: json!({"attribute_lists": n_lists, "list_depth": depth, "alphabet": alpha.len(), "sealings": 8}),
         assumptions: vec!["messages larger than the 16-bit length field are outside the statement".into()],
         ..Default::default()
